@@ -740,6 +740,9 @@ def run(ctx):
             extra_oracles2.retention(ctx)
             extra_oracles2.uni_alias(ctx)
             extra_oracles2.kde_long(ctx)
+            from .. import extra_oracles3
+            extra_oracles3.uni_results_owned(ctx)
+            extra_oracles3.uni_containers(ctx)
         except Exception as ex:
             ctx.obligation('oracle:extra:raised', False, 'correspondence', repr(ex))
             ctx.violation('oracle:extra:raised:' + type(ex).__name__, 'extra oracle raised ' + repr(ex), {'repro': '# see tools/vf/extra_oracles.py'})
